@@ -4,6 +4,7 @@ Boundary observer on Filetype.build_tree + diff + in-process main(): a datum exp
 JSON5, YAML and plist is written by independent serialisers and loaded through each real loader; the
 4x4 format matrix is enumerated per datum (equality, zero cost both ways, exit status 0) and per third
 document (cost independent of the formats on either side; reference = the JSON/JSON cell)."""
+import copy
 import itertools
 
 from gv import core, families, formats, gen, monitors
@@ -38,7 +39,21 @@ def gen_cases(spec, ctx):
             # the four formats can hold them at top level
             d = r.choice([[], {}, 0, False, "", "x", 7, 1.5, True, [[]], {"a": {}}])
             z = r.choice([[], {}, 1, True, "y", [2], {"a": [1, 2], "b": "c"}])
-        yield {"d": d, "z": z, "ds": r.choice(gen.DS), "le": r.choice(gen.LE)}
+        c = {"d": d, "z": z, "ds": r.choice(gen.DS), "le": r.choice(gen.LE)}
+        if i % 12 in (7, 11):
+            # the same non-empty list / mapping under two keys (YAML writes the second as an alias of the first), a third document
+            # that changes the repeated part, and the list options in force
+            rep = [r.choice([2, 3, 7, "ab", "xyz"]) for _ in range(r.randint(2, 4))] if r.random() < 0.7 else {"p": [2, 3], "q": "xyz"}
+            d = {"base": rep, "copy": copy.deepcopy(rep), "n": 7}
+            z = copy.deepcopy(d)
+            if isinstance(rep, list):
+                z["copy"] = z["copy"][1:] + [r.choice([9, "new"])]
+                if r.random() < 0.5:
+                    z["base"] = [9] + z["base"]
+            else:
+                z["copy"]["p"] = [3, 2, 5]
+            c.update(d=d, z=z, le=r.choice(["off", "same", "off"]), yv=3)      # yaml variant 3: shared objects -> anchors / aliases
+        yield c
 
 
 def _depth(o):
@@ -56,8 +71,10 @@ def check(case, ctx):
     opts = gen.build_options(case["ds"], case["le"])
     from gv.props.c02 import cli_args
     try:
-        paths = {f: families.tmpfile(formats.write(f, case["d"]), f"-d{formats.EXT[f]}") for f in FORMATS}
-        zpaths = {f: families.tmpfile(formats.write(f, case["z"]), f"-z{formats.EXT[f]}") for f in FORMATS}
+        def wr(f, doc):
+            return formats.write(f, doc, variant=case.get("yv") if f == "yaml" else None)
+        paths = {f: families.tmpfile(wr(f, case["d"]), f"-d{formats.EXT[f]}") for f in FORMATS}
+        zpaths = {f: families.tmpfile(wr(f, case["z"]), f"-z{formats.EXT[f]}") for f in FORMATS}
 
         def load(f, p):
             return graphtage.FILETYPES_BY_TYPENAME[f].build_tree(p, opts)
